@@ -97,7 +97,7 @@ Definition e_c18_read (v : val) : val :=
       | Some h, Some recs, Some s, Some n =>
       match getOZ md, getB sr, getB ss with
       | Some md, Some sr, Some ss =>
-          vRes (fun t => VL [VB (t_paired t); VL (map vRow (t_rows t)); VB (t_bare t)])
+          vRes (fun t => VL [VB (t_paired t); VL (map vRow (t_rows t))])
                (read_vcf h recs s n md sr ss)
       | _, _, _ => bad_input end
       | _, _, _, _ => bad_input end
@@ -112,7 +112,7 @@ Definition e_c18_load_het (v : val) : val :=
       | Some h, Some recs, Some s, Some n =>
       match getOZ md, getOQ zf, getB tb with
       | Some md, Some zf, Some tb =>
-          vRes (fun t => VL [VB (ht_paired t); VL (map vLRow (ht_rows t)); VB (ht_bare t)])
+          vRes (fun t => VL [VB (ht_paired t); VL (map vLRow (ht_rows t))])
                (load_het_snps h recs s n md zf tb)
       | _, _, _ => bad_input end
       | _, _, _, _ => bad_input end
@@ -126,7 +126,7 @@ Definition source_table (h : header) (recs : list vrec) (s n : sel) (stage : Z) 
     (ss : bool) (zf : option Q) : res htable :=
   if stage =? 0 then
     match read_vcf h recs s n md false ss with
-    | Ok t => Ok {| ht_bare := t_bare t; ht_paired := t_paired t; ht_rows := label_from 0 (t_rows t) |}
+    | Ok t => Ok {| ht_paired := t_paired t; ht_rows := label_from 0 (t_rows t) |}
     | Fail e => Fail e
     end
   else load_het_snps h recs s n md zf false.
@@ -147,7 +147,7 @@ Definition e_c18_baf (v : val) : val :=
       | Some qs =>
           vRes (fun t =>
                   VL (map (fun q => let '(rg, ah, tb) := q in
-                                    vRes vXqs (baf_by_ranges_t t rg ah tb)) qs))
+                                    vXqs (baf_by_ranges_t t rg ah tb)) qs))
                (source_table h recs s n stage md ss zf)
       | None => bad_input end
       | _, _, _, _ => bad_input end
@@ -167,8 +167,26 @@ Definition e_c18_mirrored (v : val) : val :=
       match getList (getPair getOB getB) queries with
       | Some qs =>
           vRes (fun t =>
-                  VL [VL (map (fun q => vRes (fun l => VL (map vXq l)) (mirrored_baf_t t (fst q) (snd q))) qs);
+                  VL [VL (map (fun q => VL (map vXq (mirrored_baf_t t (fst q) (snd q)))) qs);
                       if ht_paired t then VL (map (fun lr => vXq (boost_row (snd lr))) (ht_rows t)) else VNone])
+               (source_table h recs s n stage md ss zf)
+      | None => bad_input end
+      | _, _, _, _ => bad_input end
+      | _, _, _, _ => bad_input end
+  | _ => bad_input
+  end.
+
+(* same source; queries = list of range tables -> het_frac_by_ranges vectors *)
+Definition e_c18_het_frac (v : val) : val :=
+  match v with
+  | VL [h; recs; s; n; stage; md; ss; zf; queries] =>
+      match getHeader h, getList getRec recs, getSel s, getSel n with
+      | Some h, Some recs, Some s, Some n =>
+      match getZ stage, getOZ md, getB ss, getOQ zf with
+      | Some stage, Some md, Some ss, Some zf =>
+      match getList (getList getRange) queries with
+      | Some qs =>
+          vRes (fun t => VL (map (fun rg => vXqs (het_frac_by_ranges (ht_rows t) rg)) qs))
                (source_table h recs s n stage md ss zf)
       | None => bad_input end
       | _, _, _, _ => bad_input end
